@@ -262,8 +262,8 @@ func (e *env) kzgSetup() {
 					c.Class(op + "/not-substituted/in-memory-only/" + stripIdx(l.path))
 					continue
 				}
-				if strings.HasPrefix(l.path, "srs.Pk.G1[") && li%7 != 3 && N > 9 && !c.Thorough() {
-					continue // a sample of the G1 powers at larger N (all of them in the thorough tier)
+				if strings.HasPrefix(l.path, "srs.Pk.G1[") && N > c.Pick(9, 33) && li%(1+N/c.Pick(5, 12)) != 3 && l.path != fmt.Sprintf("srs.Pk.G1[%d]", N-1) {
+					continue // every G1 power up to N = 9 (thorough: 33); about 5 (12) of them and the last one above
 				}
 				var subs []struct {
 					name string
@@ -391,6 +391,15 @@ func (e *env) kzgKnown(k kz, P any, N int, nc string, verify func(prev, next any
 	var pokChal []byte
 	var pokDst byte
 	fk := func(kind, what string, f func(i int) *big.Int) {
+		if pokChal == nil {
+			same := true
+			for i := 1; i < N; i++ {
+				same = same && f(i).Cmp(e.pow(x, i)) == 0
+			}
+			if same {
+				return // at this N the "forgery" is the honest contribution
+			}
+		}
 		var F any
 		if c.Guard(op+"/panic/known-contribution", descX(x, what), func() { F = e.knownContribution(k, P, x, f, pokChal, pokDst) }) {
 			return
@@ -423,6 +432,20 @@ func (e *env) kzgKnown(k kz, P any, N int, nc string, verify func(prev, next any
 			fk("known-x/pok-for-another-dst", "all powers right, proof of knowledge computed with dst 1", pw(x))
 		}
 		pokChal, pokDst = nil, 0
+	}
+	// V3 on the proof commitment alone: X + T with the proof of knowledge recomputed for it
+	if e.t1 != nil {
+		comT := oadd(e.g1, e.P1(x), e.t1)
+		if RT, ok := e.pokBase(comT, trueChal, 0); ok {
+			var F any
+			what := "all powers right; proof commitment [x]G1 + (point of cofactor order), pok = [x]R recomputed for that commitment"
+			if !c.Guard(op+"/panic/known-contribution", descX(x, what), func() {
+				F = e.knownContribution(k, P, x, pw(x), nil, 0)
+				k.setProof(F, e.makeProof(comT, e.in.Mul2(RT, x)))
+			}) {
+				e.forged(op, "known-x/proof-commitment-plus-cofactor-torsion-pok-recomputed", descX(x, what), func() error { return verify(P, F) })
+			}
+		}
 	}
 	fk(u+"known-x/g1-powers-of-another-factor", fmt.Sprintf("G1[i] *= y^i with y=%s, [tau]G2 *= x, proof for x", y.Text(16)), pw(y))
 	fk(u+"known-x/g1-multiplied-by-x-not-its-powers", "G1[i] *= x for every i (not x^i)", func(i int) *big.Int { return x })
